@@ -65,6 +65,9 @@ type Input struct {
 	// Pre: a named parent state built through the block executor from the base state, e.g.
 	// "het:39" = the two genesis proposers pay out to different accounts and the first holds 39 more stake
 	Pre string `json:"pre,omitempty"`
+	// At: height of the executed block (default chainHeight+1); miners applied in a pre-state become
+	// active 300 blocks after their application
+	At uint64 `json:"at,omitempty"`
 }
 
 type Case struct {
@@ -115,7 +118,56 @@ func buildHetRoots() {
 		}
 		preRoots[fmt.Sprintf("het:%d", off)] = root
 	}
+	// three proposers whose payout accounts are the same 20-byte address (the two genesis proposers share one
+	// account; a third is applied with that account's bytes left-padded by a zero byte, which the registry keeps
+	// as a different account) and unequal stakes: per-account sums over three or more shares
+	for _, off := range same3Offsets {
+		st := node.StateAt(baseRoot)
+		million, _ := utility.StrToBigInt("1000000")
+		st.SetBalance(common.HexToAddress(devProposerAcct), million)
+		top := core.GetBlockChain().TopBlock()
+		h := node.Header(top, chainHeight+1, 1, 5, time.Date(2024, 4, 2, 0, 0, 0, 0, time.UTC))
+		b := &types.Block{Header: h}
+		padded := "0x00" + devProposerAcct[2:]
+		b.Transactions = append(b.Transactions,
+			node.Tx(types.TransactionTypeMinerAdd, devProposerAcct, "", minerJSON(node.DevProposer, common.MinerTypeProposer, off, ""), "", 0, 0, "same3-0"),
+			node.Tx(types.TransactionTypeMinerApply, node.AcctB, "", minerJSON(minerP3, common.MinerTypeProposer, common.ProposerStake+3*off+1, padded), "", 0, 0, "same3-1"))
+		// four more on the same address (one more zero byte each), stakes without a common pattern
+		for k, extra := range []uint64{357, 1001, 2999, 5919} {
+			acc := "0x" + strings.Repeat("00", k+2) + devProposerAcct[2:]
+			id := fmt.Sprintf("0x00000000000000000000000000000000000000000000000000000000000aa0%02x", 0x10+k)
+			b.Transactions = append(b.Transactions, node.Tx(types.TransactionTypeMinerApply, node.AcctB, "", minerJSON(id, common.MinerTypeProposer, common.ProposerStake+extra+off, acc), "", uint64(k+1), 0, fmt.Sprintf("same3-%d", k+2)))
+		}
+		h.Hash = h.GenHash()
+		_, _, _, receipts := core.VerifExecuteBlock(st, b, "fullverify")
+		okAll := len(receipts) == len(b.Transactions)
+		for _, r := range receipts {
+			okAll = okAll && r.Status == types.ReceiptStatusSuccessful
+		}
+		if !okAll {
+			msg := ""
+			for _, r := range receipts {
+				msg += fmt.Sprintf("[%d %s]", r.Status, r.Msg)
+			}
+			preSkipped = append(preSkipped, fmt.Sprintf("same3:%d not built: %s", off, msg))
+			continue
+		}
+		root, err := st.Commit(true)
+		if err != nil {
+			panic(err)
+		}
+		preRoots[fmt.Sprintf("same3:%d", off)] = root
+	}
 }
+
+const minerP3 = "0x00000000000000000000000000000000000000000000000000000000000aa003"
+
+var preSkipped []string
+
+var same3Offsets = []uint64{1, 7, 39, 100, 777, 3001, 12345, 31337, 65537, 99991}
+
+// blockAt overrides the height of the block under test while an input with At != 0 is executed
+var blockAt uint64
 
 func word(v int64) []byte { return common.BigToHash(big.NewInt(v)).Bytes() }
 
@@ -422,6 +474,11 @@ func execute(in Input, ch *fw.Chooser) (string, []string) {
 	}
 	common.SetBlockHeight(chainHeight + headAhead)
 	defer common.SetBlockHeight(chainHeight)
+	if in.At != 0 {
+		blockAt = in.At
+		common.SetBlockHeight(in.At - 1 + headAhead)
+		defer func() { blockAt = 0 }()
+	}
 	parent := baseRoot
 	if in.Sib {
 		parent = sibRoot
@@ -565,7 +622,11 @@ func executeVerifyBlock(in Input, ch *fw.Chooser, pt, warm int, devs []string) (
 
 func block(specs []TxSpec, st *account.AccountDB, salt int) *types.Block {
 	top := core.GetBlockChain().TopBlock()
-	h := node.Header(top, chainHeight+1, 1, 5, time.Date(2024, 5, 1, 0, 0, salt, 0, time.UTC))
+	bh := chainHeight + 1
+	if blockAt != 0 && salt == 0 {
+		bh = blockAt
+	}
+	h := node.Header(top, bh, 1, 5, time.Date(2024, 5, 1, 0, 0, salt, 0, time.UTC))
 	b := &types.Block{Header: h}
 	for i, s := range specs {
 		if keepIdx != nil && salt == 0 {
@@ -639,6 +700,13 @@ func inputs(thorough bool) []Input {
 	var ins []Input
 	// registry pre-states: the block-wide bookkeeping (rewards over the proposer and validator sets) on a
 	// heterogeneous registry, for the empty block and two short lists
+	for _, off := range same3Offsets {
+		pre := fmt.Sprintf("same3:%d", off)
+		if _, ok := preRoots[pre]; ok {
+			ins = append(ins, Input{Name: "same3", Pre: pre, At: 400})
+			ins = append(ins, Input{Name: "same3", Pre: pre, At: 400, Txs: []TxSpec{{Kind: "transfer", Src: "A", Targets: [][2]string{{"F", "3"}, {"B", "3"}}}}})
+		}
+	}
 	for _, off := range hetOffsets {
 		pre := fmt.Sprintf("het:%d", off)
 		ins = append(ins, Input{Name: "het", Pre: pre})
@@ -875,6 +943,10 @@ func run(c *fw.Ctx) {
 		bound = 2
 	}
 	ins := inputs(c.Thorough())
+	for _, sk := range preSkipped {
+		c.Note("pre_state_skipped", sk)
+	}
+	c.Count("registry_pre_states", int64(len(preRoots)))
 	c.Note("inputs_total", len(ins))
 	c.Note("deviation_bound", bound)
 	var firstMine *Input
